@@ -335,6 +335,19 @@ def run(ctx):
     ctx.extra["model_level_counterexamples"] = [{"instance": m["instance"], "property": m["property"],
                                                  "schedule": " ".join("%s(%s)" % (a, ",".join(c.values())) for a, c in m["schedule"])}
                                                 for m in ctx.model_findings]
+    # ---------------- unbounded: "whole or absent" as an inductive invariant of the write-aside-and-rename protocol
+    if variant == "atomic":
+        import core
+
+        def rewrite(wd):
+            t = open(os.path.join(wd, "APA_ProfileCache.tla")).read()
+            t = t.replace('Variant <- "atomic"', 'Variant <- "inplace"').replace("MODULE APA_ProfileCache", "MODULE APA_ProfileCacheInplace")
+            open(os.path.join(wd, "APA_ProfileCacheInplace.tla"), "w").write(t)
+        core.apalache(ctx, "apalache_inductive_invariant", ["ProfileCache.tla", "APA_ProfileCache.tla"], "APA_ProfileCache",
+                      [("base", "APA_ProfileCache", "Init", "IndInv", 0, True), ("step", "APA_ProfileCache", "IndInit", "IndInv", 1, True),
+                       ("control-not-inductive-without-TmpIsWhole", "APA_ProfileCache", "WeakInit", "WeakInv", 1, False),
+                       ("control-init-not-trivial", "APA_ProfileCache", "IndInit", "Trivial", 0, False),
+                       ("control-inplace-protocol-not-inductive", "APA_ProfileCacheInplace", "IndInit", "IndInv", 1, False)], rewrite=rewrite)
     # ---------------- T: direct exploration of the real code
     allevents += explore(ctx, mins, rnd, quick)
     allevents += kill_pass(ctx, mins, quick)
